@@ -15,6 +15,7 @@ RULE = (
     "assignments of the detections and compared with the generating tree. non-trivial = tree with >= 1 operator or a selector; "
     "distinct by condition text."
 )
+RULE += (" " + 'Sub-space D: every selector condition text is parsed consecutively against different detection-name sets in both orders (parse results are cached per text); each parse must equal a first parse.')
 ASSUMPTIONS = [
     "each detection is one opaque atom {Fi: 'v'}; only selectors that match >= 1 detection are judged",
     "trees are the reference (conditions are printed from trees, no second parser)",
